@@ -404,6 +404,13 @@ pub fn binary(a: &Rel, b: &Rel, rich: bool) -> Vec<Rel> {
         if let Some((ka2, kb2)) = jk.iter().find(|(x, y)| x.name != ka.name || y.name != kb.name) {
             ons.push(("eq-or-eq", format!("a.{} = b.{} OR a.{} = b.{}", ka.name, kb.name, ka2.name, kb2.name)));
         }
+        if rich {
+            // the second candidate pair alone: an equality between columns that are NOT each other's join partner
+            // (users.id = orders.id): the rows it pairs belong to different owners
+            if let Some((ka2, kb2)) = jk.iter().find(|(x, y)| x.name != ka.name || y.name != kb.name) {
+                ons.push(("eq2", format!("a.{} = b.{}", ka2.name, kb2.name)));
+            }
+        }
         if rich && ka.kind != Kind::T {
             ons.push(("lt", format!("a.{} < b.{}", ka.name, kb.name)));
             ons.push(("eq-reversed", format!("b.{} = a.{}", kb.name, ka.name)));
@@ -419,6 +426,7 @@ pub fn binary(a: &Rel, b: &Rel, rich: bool) -> Vec<Rel> {
                     "eq" => "on-eq",
                     "eq-and-cmp" => "on-eq-and-cmp",
                     "eq-or-eq" => "on-eq-or-eq",
+                    "eq2" => "on-eq-other-pair",
                     "lt" => "on-lt",
                     _ => "on-eq-reversed",
                 };
